@@ -2,5 +2,18 @@
 (* Behaviour generation for the keep-alive automaton (see tools/replay_time.py). *)
 EXTENDS Timers, Json
 
+\* simulation only: connections are not thrown away at once (Drop is always enabled; a random walk would use
+\* up its connections in its first steps) -- a connection ends when something is at stake
+SimDrop == (live /\ ~live' /\ Len(hist') > Len(hist) /\ hist'[Len(hist')].a = "drop")
+           => (queued \/ (pingAt # None /\ now = pingAt) \/ (pingAt = None /\ (now \div UNIT) % 6 = 3))
+\* ... and steps that do not let time pass (other inbound traffic, QoS 0 publishes) are thinned out, so that a
+\* walk of a few dozen steps reaches the keep-alive deadlines
+SimPace ==
+  LET a == IF hist' # << >> THEN hist'[Len(hist')] ELSE [a |-> "", p |-> ""] IN
+  /\ (Len(hist') > Len(hist) /\ a.a = "b" /\ a.p = "OTHER") => (now \div UNIT) % 4 = 1
+  /\ (Len(hist') > Len(hist) /\ a.a = "q0") => (now \div UNIT) % 5 = 2
+  \* a PINGRESP comes at once, or around the round-trip bound (so that walks reach the bound and the timeout)
+  /\ (Len(hist') > Len(hist) /\ a.a = "b" /\ a.p = "PINGRESP") => (now = pingAt \/ now + 3 * UNIT >= pingAt + RTT)
+
 Emit == (hist # << >>) => PrintT("@H " \o ToString(TLCGet("stats").traces) \o " " \o ToJson(hist))
 =============================================================================
